@@ -108,6 +108,29 @@ func propC16(c *Ctx) {
 			}
 		}
 	})
+	// … or the candidates are the name members of a table the function ranges over (identityCols)
+	if rows, elems, ok := rangedTable(w, aui); ok {
+		used := map[int]bool{}
+		allInstrs(aui, func(in ssa.Instruction) {
+			v, isV := in.(ssa.Value)
+			if !isV {
+				return
+			}
+			if b, isB := v.Type().Underlying().(*types.Basic); !isB || b.Kind() != types.String {
+				return
+			}
+			if k, ok := elemField(v, elems); ok {
+				used[k] = true
+			}
+		})
+		for _, r := range rows {
+			for k := range used {
+				if s, ok := constString(r[k]); ok {
+					possible[s] = true
+				}
+			}
+		}
+	}
 	m := newFieldModel(c)
 	var names []string
 	for n := range auto {
@@ -132,7 +155,55 @@ func propC16(c *Ctx) {
 	// components): a selection on a nested component of a tuple array yields one row per element too
 	{
 		okAbi, okLog := false, false
+		fIndexedT := w.Field("dig", "Input", "Indexed")
+		readsIndexed := func(p ssa.Value) bool {
+			var pred *ssa.Function
+			switch x := stripConv(p).(type) {
+			case *ssa.MakeClosure:
+				pred, _ = x.Fn.(*ssa.Function)
+			case *ssa.Function:
+				pred = x
+			case *ssa.UnOp:
+				if al, ok := x.X.(*ssa.Alloc); ok && x.Op == token.MUL {
+					if cv := cellValue(al); cv != nil {
+						switch y := stripConv(cv).(type) {
+						case *ssa.MakeClosure:
+							pred, _ = y.Fn.(*ssa.Function)
+						case *ssa.Function:
+							pred = y
+						}
+					}
+				}
+			}
+			if pred == nil {
+				return false
+			}
+			hit := false
+			allInstrs(pred, func(in ssa.Instruction) {
+				if v, ok := in.(ssa.Value); ok {
+					if lf, _ := fieldOf(v); lf == fIndexedT {
+						hit = true
+					}
+				}
+			})
+			return hit
+		}
 		for _, rs := range reqSites["abi_idx"] {
+			if rs.tbl {
+				// table row: its condition is slices.ContainsFunc(Selected(), not indexed)
+				lv := rowCondLeaves(rs.cond)
+				good := len(lv) > 0
+				for _, l := range lv {
+					call, ok := l.(*ssa.Call)
+					if !ok || calleeName(call) != "slices.ContainsFunc" || len(call.Call.Args) != 2 || !isSelectedOf(stripConv(call.Call.Args[0])) || !readsIndexed(call.Call.Args[1]) {
+						good = false
+					}
+				}
+				if good {
+					okAbi = true
+				}
+				continue
+			}
 			for _, col := range loopCollections(rs.at) {
 				if isSelectedOf(col) {
 					okAbi = true
@@ -170,6 +241,26 @@ func propC16(c *Ctx) {
 			}
 		}
 		for _, rs := range reqSites["log_idx"] {
+			if rs.tbl {
+				lv := rowCondLeaves(rs.cond)
+				good := len(lv) > 0
+				for _, l := range lv {
+					b, ok := l.(*ssa.BinOp)
+					if !ok || b.Op != token.GTR {
+						good = false
+						continue
+					}
+					arg, isLen := lenArg(b.X)
+					n, isK := constInt(b.Y)
+					if !isLen || !isK || n != 0 || !isSelectedOf(arg) {
+						good = false
+					}
+				}
+				if good {
+					okLog = true
+				}
+				continue
+			}
 			sel, _ := cmpEdges(rs.fn, func(b *ssa.BinOp) bool {
 				arg, ok := lenArg(b.X)
 				n, okc := constInt(b.Y)
